@@ -460,6 +460,20 @@ def gen_graph(ints, for_prebuild=False, logical_calls=False, states=None):
             if k == 0:
                 stmts.append(N('ReturnNode', expression=None))
                 features.add('bare-return')
+        if for_prebuild and j == 0:
+            # a fixed shape at the head of the first body (no draws, so the tape means what it meant): an `if` nested in an
+            # elif block that is followed by a further elif and an else - whoever translates the inner one must come back to
+            # the right clause of the outer one
+            B = lambda v: N('BooleanNode', value=v)
+            A = lambda nme, v: N('AssignmentNode', variable_access=N('VariableAccessNode', variable_name=nme), expression=N('IntegerNode', value=str(v)))
+            inner = N('IfNode', expression=B('true'), block=block([A('zq_in', 1)]),
+                      elif_list=N('ElIfListNode', children=[N('ElIfNode', expression=B('false'), block=block([A('zq_in', 2)]))]),
+                      else_clause=N('ElseNode', block=block([A('zq_in', 3)])))
+            outer = N('IfNode', expression=B('false'), block=block([A('zq_out', 1)]),
+                      elif_list=N('ElIfListNode', children=[N('ElIfNode', expression=B('true'), block=block([A('zq_out', 2), inner])),
+                                                            N('ElIfNode', expression=B('false'), block=block([A('zq_out', 3)]))]),
+                      else_clause=N('ElseNode', block=block([A('zq_out', 4)])))
+            stmts.insert(0, outer)
         c.body = N('BodyNode', block=block(stmts))
         features |= g.features
         order.append(c)
